@@ -166,10 +166,14 @@ func (r *Run) classify(e *Exch, by map[int]*OResp) *cls {
 					if av := c.B.Header.Values("Age"); len(av) > 0 {
 						cands = append(cands, av)
 					}
-					_, _, vc := r.validationChain(c.B, hv.SeqResp)
-					for _, o := range vc {
-						if av := o.Header.Values("Age"); len(av) > 0 {
-							cands = append(cands, av)
+					// (any 304 for the resource in between, not only those of the strict validation chain: one that
+					// answered a request carrying the client's own conditional next to the stored validators may
+					// have been merged as well; more candidates only widen the interval)
+					for _, o := range r.OResps {
+						if o.Is304 && o.Res == c.B.Res && o.SeqResp > c.B.SeqResp && o.SeqResp < hv.SeqResp {
+							if av := o.Header.Values("Age"); len(av) > 0 {
+								cands = append(cands, av)
+							}
 						}
 					}
 				}
